@@ -17,8 +17,6 @@ Proof.
   - destruct (fv_ref _ _ FI) as [E|E]; rewrite E; lia.
   - intros Z0. destruct (rw_reg s KICK_RAW) eqn:R; [|reflexivity].
     destruct (proj1 (ev_kick _ EI) R) as [_ P]. lia.
-  - intros j RJ NZ. pose proof (dy_kern _ DI j RJ) as DK. destruct (Z.eqb_spec (efd_raw s) 0) as [E|_]; [contradiction|].
-    destruct DK as (_ & W & _). exact W.
   - intros U P. apply (proj2 (ev_kick _ EI)). split; assumption.
 Qed.
 
@@ -123,7 +121,7 @@ Qed.
 Lemma raw_got_event_O : forall s j, InvW s -> rw_reg s j = true -> PO s (raw_got_event sc s j).
 Proof.
   intros s j I RJ. unfold raw_got_event. cbv zeta.
-  set (toread := if efd_raw s =? 0 then 1024 else 8).
+  set (toread := if raw_is_pipe s j then 1024 else 8).
   pose proof (kstable_read (kern s) (rw_rfd s j) toread) as KS.
   pose proof (KO_read (kern s) (rw_rfd s j) toread) as KT1.
   destruct (k_read (kern s) (rw_rfd s j) toread) as [k1 [n|e]]; cbn [fst] in KS, KT1.
